@@ -16,7 +16,7 @@ import json, os, re, shutil, subprocess, sys, time
 ROOT = os.path.dirname(os.path.dirname(os.path.abspath(__file__)))
 RAW = os.path.join(ROOT, "seeded_raw")
 OUT = os.path.join(ROOT, "seeded")
-WT = "/tmp/mutwork"
+WT = "/tmp/mutwork" + os.environ.get("SCRATCH_SUFFIX", "")
 ENV = dict(os.environ, CARGO_NET_OFFLINE="true", RUST_BACKTRACE="0")
 
 
@@ -84,7 +84,7 @@ def needs(pid, x):
 
 # additional checks worth trying for a change (cross-property detection)
 EXTRA = {
-    "C01": ["C02", "C14"], "C02": ["C01", "C14"], "C03": ["C16", "C01"], "C04": ["C07"], "C05": ["C11", "C12"],
+    "C01": ["C02", "C14"], "C02": ["C01", "C14"], "C03": ["C16", "C01"], "C04": ["C07", "C08", "C13"], "C05": ["C11", "C12"],
     "C06": ["C11"], "C07": ["C05"], "C08": ["C13", "C17"], "C09": ["C18", "C10"], "C10": ["C05", "C09"],
     "C11": ["C05"], "C12": ["C05"], "C13": ["C07", "C08"], "C14": ["C01", "C02"], "C15": ["C06"],
     "C16": ["C03"], "C17": ["C08", "C07"], "C18": ["C09"], "C19": ["C03", "C01"],
